@@ -719,6 +719,9 @@ func countRegimes(res *vh.Result, sc *scenario) {
 				}
 				if c.Pts[a].P {
 					res.Count("cum_points", 1)
+					if c.Pts[a].Sc < 0 {
+						res.Count("expo_negative_scale_points", 1)
+					}
 				}
 			}
 		}
